@@ -6,6 +6,7 @@
  *   reset
  *   topo syn <synthetic description up to end of line>
  *   topo xml <path> | topo fsroot <dir>
+ *   env NAME=VALUE                          environment variable set around the load (e.g. HWLOC_KEEP_NVIDIA_GPU_NUMA_NODES=1)
  *   pre restrict c|n <csv|-> <flags>        setup steps, executed before the Reset event
  *   pre subtype <nodeid> <string|->
  *   objs <id> ...                           declared candidate objects (P<os> PU, K<os> Package, C<os> Core, M0 root)
@@ -160,7 +161,7 @@ static void out_topo(void) {
     hwloc_obj_t o = find_obj(decl_objs[i]);
     out("%s[\"%s\",%d,", i ? "," : "", decl_objs[i], o ? 1 : 0);
     if (o) { hwloc_obj_t c = o; while (c && !c->cpuset) c = c->parent; out_set(c ? c->cpuset : NULL); } else out("[]");
-    out("]");
+    out(",%d]", o && o->cpuset ? 1 : 0);      /* has a cpuset of its own (I/O and Misc objects use their parent's) */
   }
   out("]}");
 }
@@ -429,10 +430,14 @@ static void clear_all(void) {
 }
 
 static char *pre_lines[32]; static int npre;
+static char *env_lines[8]; static int nenv;
 
 static void do_begin(char *p, int beh) {
   char *opt = hwv_tok(&p); int i, ok;
+  for (i = 0; i < nenv; i++) { char *eq = strchr(env_lines[i], '='); if (eq) { *eq = 0; setenv(env_lines[i], eq + 1, 1); *eq = '='; } }
   ok = topokind && load_topology() == 0;
+  for (i = 0; i < nenv; i++) { char *eq = strchr(env_lines[i], '='); if (eq) { *eq = 0; unsetenv(env_lines[i]); *eq = '='; } }
+  nenv = 0;
   for (i = 0; ok && i < npre; i++) {
     char *q = pre_lines[i]; char *what = hwv_tok(&q);
     if (what && !strcmp(what, "restrict")) {
@@ -520,7 +525,8 @@ static void handler(char **lines, size_t n, int beh) {
   for (i = 0; i < n; i++) {
     char *p = lines[i]; char *cmd = hwv_tok(&p), *a;
     if (!cmd) continue;
-    if (!strcmp(cmd, "reset")) { clear_all(); npre = 0; continue; }
+    if (!strcmp(cmd, "reset")) { clear_all(); npre = 0; nenv = 0; continue; }
+    if (!strcmp(cmd, "env")) { a = hwv_tok(&p); if (a && nenv < 8) env_lines[nenv++] = a; continue; }
     if (!strcmp(cmd, "topo")) {
       char *k = hwv_tok(&p);
       while (*p == ' ') p++;
